@@ -40,7 +40,14 @@ func newRes() *Res {
 func (r *Res) V(prop, class, format string, a ...interface{}) {
 	r.mu.Lock()
 	defer r.mu.Unlock()
-	if len(r.Viol) < 20 {
+	// cap per class, so that a frequent (e.g. known) class cannot crowd out others
+	same := 0
+	for _, v := range r.Viol {
+		if v.Prop == prop && v.Class == class {
+			same++
+		}
+	}
+	if same < 4 && len(r.Viol) < 200 {
 		d := fmt.Sprintf(format, a...)
 		if len(d) > 6000 {
 			d = d[:6000] + "...(truncated)"
@@ -201,6 +208,18 @@ func TestEngine(t *testing.T) {
 	}
 
 	all := fn(tier, seed)
+	if pf := os.Getenv("VERIF_CASE_PREFIX"); pf != "" {
+		var keep []Case
+		for _, c := range all {
+			for _, p := range strings.Split(pf, ",") {
+				if strings.HasPrefix(c.ID, p) {
+					keep = append(keep, c)
+					break
+				}
+			}
+		}
+		all = keep
+	}
 	var mine []Case
 	for i, c := range all {
 		if replayID != "" {
